@@ -56,6 +56,8 @@ def main():
             out["check_tail"] = o[-500:]
     finally:
         sh("git checkout -- . && git clean -fdq", "/repo")
+        # the evidence files of /verif describe the unchanged tree only
+        sh("git checkout -- evidence", os.path.dirname(os.path.dirname(os.path.abspath(__file__))))
     print(json.dumps(out))
 
 if __name__ == "__main__":
